@@ -45,7 +45,9 @@ UNARY = {
     "sqrt": libsbml.AST_FUNCTION_ROOT,
     "remainder": libsbml.AST_FUNCTION_REM,
     "abs": libsbml.AST_FUNCTION_ABS,
+    "exp": libsbml.AST_FUNCTION_EXP,
     "ceil": libsbml.AST_FUNCTION_CEILING,
+    "floor": libsbml.AST_FUNCTION_FLOOR,
     "sin": libsbml.AST_FUNCTION_SIN,
     "cos": libsbml.AST_FUNCTION_COS,
     "tan": libsbml.AST_FUNCTION_TAN,
@@ -64,6 +66,7 @@ UNARY = {
 
 BINARY = {
     "power": libsbml.AST_POWER,
+    "pow": libsbml.AST_POWER,
 }
 
 NARY = {
@@ -180,13 +183,22 @@ def _convert_ifexp(node: ast.IfExp) -> libsbml.ASTNode:
     return sbml_node
 
 
+def _convert_unary_call(typ: int, arg: ast.expr) -> libsbml.ASTNode:
+    sbml_node = libsbml.ASTNode(typ)
+    if typ == libsbml.AST_FUNCTION_LOG:
+        # MathML log takes its base as first child
+        base = libsbml.ASTNode(libsbml.AST_INTEGER)
+        base.setValue(10)
+        sbml_node.addChild(base)
+    sbml_node.addChild(_convert_node(arg))
+    return sbml_node
+
+
 def _convert_direct_call(node: ast.Call) -> libsbml.ASTNode:
     func = cast(ast.Name, node.func).id
 
     if (typ := UNARY.get(func)) is not None:
-        sbml_node = libsbml.ASTNode(typ)
-        sbml_node.addChild(_convert_node(node.args[0]))
-        return sbml_node
+        return _convert_unary_call(typ, node.args[0])
     if (typ := BINARY.get(func)) is not None:
         sbml_node = libsbml.ASTNode(typ)
         sbml_node.addChild(_convert_node(node.args[0]))
@@ -209,9 +221,7 @@ def _convert_library_call(node: ast.Call) -> libsbml.ASTNode:
 
     if parent in ("math", "np", "numpy"):
         if (typ := UNARY.get(attr)) is not None:
-            sbml_node = libsbml.ASTNode(typ)
-            sbml_node.addChild(_convert_node(node.args[0]))
-            return sbml_node
+            return _convert_unary_call(typ, node.args[0])
         if (typ := BINARY.get(attr)) is not None:
             sbml_node = libsbml.ASTNode(typ)
             sbml_node.addChild(_convert_node(node.args[0]))
